@@ -5,6 +5,7 @@ Plan generate_plan(const std::string& engine, uint64_t seed, const GenOpts& g) {
   if (engine == "hist") return gen_hist(seed, g);
   if (engine == "file") return gen_file(seed, g);
   if (engine == "thr") return gen_thr(seed, g);
+  if (engine == "exact") return gen_exact(seed, g);
   return gen_stop(seed, g);
 }
 }  // namespace sim
